@@ -45,6 +45,8 @@ func checkC13(p *Prog, r *Report) {
 	c13Hash(p, ib, r)
 	r.Rule("R9", "64-bit fields accessed atomically are 8-byte aligned under 32-bit (GOARCH=386) struct layout")
 	c13Alignment(p, ls, r)
+	// a response re-enables sending only if it is decoded: the custom decoders of the data model add no rejection of their own
+	customDecoderRejectsOnlySyntax(p, r, "R10")
 	r.Assumes("the LRU cache library keeps its documented capacity", "sha256 is collision free for the purposes of de-duplication")
 }
 
